@@ -34,6 +34,15 @@ KITCHEN = [
 ]
 
 
+ALL_INDENTED = [      # leader style, but every text line of a doccomment has extra leading spaces
+    {"k": "function", "doc": 1, "params": ["a"], "doctext": ["  Indented first.", "", "    deeper", "  back"]},
+    {"k": "close"},
+    {"k": "set", "doc": 1, "values": ["v"], "doctext": [" one space more"]},
+    {"k": "module", "name": "", "doctext": ["   module text indented", "   second"]},
+]
+ALL_INDENTED = ALL_INDENTED[-1:] + ALL_INDENTED[:-1]
+
+
 LEADERLESS = [
     {"k": "function", "doc": 1, "params": ["a"], "doctext": ["Example::", "", "    literal line", "      deeper", "",
                                                                ".. note::", "", "   body of the note"]},
@@ -67,6 +76,9 @@ def gap_variants(toks, kinds, fillers, only_between=False):
             # a bracket comment must not share its line with a following command (CMake rejects that)
             trail = "" if f[-1] in " \t\n" else ("\n" if b in ("id", "doc", "moddoc") else " ")
             yield n, f, default + lead + f + trail
+            if b in ("doc", "moddoc") and f[-1] not in " \t\n":
+                # a bracket comment in front of the doccomment opener on the same line (both are comments: valid)
+                yield n, f + " <same line as the doccomment>", default + lead + f + " "
             if a == ")" and f.lstrip().startswith("#"):
                 # trailing comment on the command's own line
                 yield n, f, " " + f.lstrip() + ("" if f.endswith("\n") else "\n")
@@ -129,6 +141,8 @@ def check_module(job):
     for f in fillers:
         trail = "" if f[-1] in " \t\n" else "\n"
         cmp(f"head filler {f!r}", render_with_base(its, {"head": f + trail}))
+        if kinds and kinds[0] in ("doc", "moddoc") and f[-1] not in " \t\n":
+            cmp(f"head filler {f!r} on the doccomment's line", render_with_base(its, {"head": f + " "}))
         cmp(f"tail filler {f!r}", render_with_base(its, {"tail": "\n" + f}))
         if f.endswith("\n"):
             cmp(f"tail filler {f[:-1]!r} at EOF", render_with_base(its, {"tail": "\n" + f[:-1]}))
@@ -169,6 +183,7 @@ def run(ctx):
     jobs = [(KITCHEN, "pairs" if not quick else "full", p, 48) for p in range(48)]
     # doccomments written without '#' leaders whose lines carry their own indentation (literal block, directive body)
     jobs += [(LEADERLESS, "full", p, 4, (("leader", False),)) for p in range(4)]
+    jobs += [(ALL_INDENTED, "full", p, 4) for p in range(4)]
     for h in hs:
         if len(h) <= n_full:
             jobs.append((h, "pairs" if (not quick and len(h) <= 1) else "full"))
